@@ -315,6 +315,18 @@ impl Node {
     }
 }
 
+#[cfg(reclass_rs_verif)]
+impl Node {
+    /// Verification hook: `abs_class_name` for a node or class located at `loc`.
+    pub fn verif_abs_class_name(loc: Option<PathBuf>, class: &str) -> Result<String> {
+        let n = Node {
+            own_loc: loc,
+            ..Default::default()
+        };
+        n.abs_class_name(class)
+    }
+}
+
 #[cfg(test)]
 fn make_reclass() -> Reclass {
     Reclass::new("./tests/inventory", "nodes", "classes", false).unwrap()
